@@ -352,6 +352,21 @@ theorem linear_bits_card (H : TupleHash) (m : Mol) (lo hi length nab nbp : Int) 
     cases h
     exact Nat.le_trans (active_bits_card _ _ _) (Nat.mul_le_mul_right _ (hashes_card H nbp d))
 
+/-- **morgan_bits_card** — number of produced indices ≤ atoms × radii × active bits -/
+theorem morgan_bits_card (H : TupleHash) (m : Mol) (hwf : m.WF = true) (lo hi length nab : Int) (h1 : 1 ≤ lo) (h2 : lo ≤ hi)
+    (bits : List Nat) (h : morganBitSet H m lo hi length nab = .ok bits) :
+    bits.length ≤ (hi - lo + 1).toNat * m.ids.length * max 1 nab.toNat := by
+  unfold morganBitSet morganHashSet at h
+  by_cases hl : length ≤ 0
+  · simp [hl, bind, Except.bind, throw, throwThe, MonadExceptOf.throw] at h
+  · simp only [hl, if_false, morgan_layers H m hwf lo hi h1 h2, bind, Except.bind, pure, Except.pure] at h
+    cases h
+    refine Nat.le_trans (active_bits_card _ _ _) (Nat.mul_le_mul_right _ ?_)
+    refine Nat.le_trans (length_toSet_le _) ?_
+    refine Nat.le_trans (length_flatMap_le _ m.ids.length _ (fun d hd => ?_)) (by simp)
+    obtain ⟨i, _, rfl⟩ := List.mem_map.mp hd
+    simp
+
 /-- **active_bits_iteration_order_free** — determinism under set iteration order: whatever order (and multiplicity) the
     `for tpl in hashes` loop meets the members of the hash set in, the resulting bit set is the same set — the two results
     are permutations of one another (both duplicate free) -/
